@@ -91,14 +91,14 @@ Proof.
                               else c2) (cPW c) (cPH c)
                              (pic_build (cPW c) (cPH c)
                                 (client_apply (pic_get (cPic c)) (fb_for st c) (copy_wrects UC (cDX c) (cDY c))
-                                   (cDX c) (cDY c) (filter raw_emitted (rgn_iter false false (coalesce16 st (rgn_count UC) U3c)))))) = M').
+                                   (cDX c) (cDY c) (filter raw_emitted (rgn_iter false false (coalesce st U3c)))))) = M').
     { destruct (cShape c && cCurChanged c && cReady c); destruct c2; csimpl; subst; destruct c; reflexivity. }
     assert (EC : cC (set_pic (if cShape c && cCurChanged c && cReady c
                               then set_flags c2 (cUseCopy c2) (cShape c2) false (cReady c2) (cUseNewFB c2) (cUseExt c2)
                               else c2) (cPW c) (cPH c)
                              (pic_build (cPW c) (cPH c)
                                 (client_apply (pic_get (cPic c)) (fb_for st c) (copy_wrects UC (cDX c) (cDY c))
-                                   (cDX c) (cDY c) (filter raw_emitted (rgn_iter false false (coalesce16 st (rgn_count UC) U3c)))))) = rgn_empty).
+                                   (cDX c) (cDY c) (filter raw_emitted (rgn_iter false false (coalesce st U3c)))))) = rgn_empty).
     { destruct (cShape c && cCurChanged c && cReady c); destruct c2; csimpl; subst; destruct c; reflexivity. }
     rewrite EM, EC. split; [|reflexivity].
     unfold M', U3. msimp. rewrite EU2. msimp. rewrite HR.
@@ -185,7 +185,7 @@ Proof.
   assert (HUC : WF UC) by (unfold UC; wf).
   assert (HU3 : WF U3) by (unfold U3; wf).
   destruct (soft_cursor_spec _ _ _ _ _ HW HH HU3 Esoft) as (HU3c & Hsup3 & _).
-  destruct (coalesce16_spec st (rgn_count UC) U3c HU3c) as [HU4 Hsup4].
+  destruct (coalesce_spec st U3c HU3c) as [HU4 Hsup4].
   match type of Hs with (if ?cond then _ else _) = _ => destruct cond end; [|discriminate].
   inversion Hs; subst c' n rects. clear Hs.
   assert (EUC : rgn_mem UC x y = false).
